@@ -328,10 +328,24 @@ def d3(ctx):
                     lam = w
             if lam is None or not (len(c.args) >= 3 and isinstance(c.args[2], ast.Name) and c.args[2].id == lam.args.args[0].arg):
                 lamvar_ok = False
+        # the parameter tuple being updated must be the closure's own `p` argument (2nd lambda parameter),
+        # not state captured at trace time
+        outer = st.value.args[0] if isinstance(st.value, ast.Call) and st.value.args and isinstance(st.value.args[0], ast.Lambda) else None
+        own_p = outer.args.args[1].arg if outer is not None and len(outer.args.args) >= 2 else None
+        for c in calls:
+            if not (c.args and isinstance(c.args[0], ast.Name) and c.args[0].id == own_p):
+                lamvar_ok = False
+        for c in ast.walk(st.value):
+            if isinstance(c, ast.Call) and dotted(c.func) in ("jvp", "vjp"):
+                pa = c.args[1] if len(c.args) > 1 else None
+                if isinstance(pa, ast.Tuple) and pa.elts:
+                    pa = pa.elts[0]
+                if isinstance(pa, ast.Subscript) and not (isinstance(pa.value, ast.Name) and pa.value.id == own_p):
+                    lamvar_ok = False
         ctx.decide(rule, ok and lamvar_ok, init, st, construct=f"Objective.{attr}",
                    detail=f"slot {want}: param_index_update index {ks}, primal p[{prim}]",
                    bad_detail=f"Objective.{attr} differentiates slot {ks} at primal p{prim} (name says slot {want})"
-                              + ("" if lamvar_ok else "; replaced value is not the differentiation variable"))
+                              + ("" if lamvar_ok else "; the updated tuple / primal is not the closure's own parameter argument or the replaced value is not the differentiation variable"))
     if n_cl < 6:
         raise Incomplete(f"{n_cl} parameter jvp/vjp closures found in Objective.__init__ (6 on the reference tree)")
     # methods delegate to the same-numbered closure
@@ -428,6 +442,12 @@ def d3(ctx):
                 repl = [a if a != z else (P.id if isinstance(P, ast.Name) else "?") for a in args]
                 in_order = [o for o in outer if o in repl] == [r for r in repl if r in outer]
                 ok = isinstance(P, ast.Name) and P.id in missing and in_order
+                # every parameter the wrapper accepts must reach the wrapped computation
+                used = {n.id for n in ast.walk(body) if isinstance(n, ast.Name)}
+                unused = [o for o in outer if o not in used]
+                ctx.decide(rule, not unused, sc, lam, construct=f"vjp-wrapper-forwards:{src(call)[:60]}",
+                           detail="all wrapper parameters are forwarded",
+                           bad_detail=f"wrapper accepts {unused} but never forwards it to `{src(call)[:60]}` (the value silently falls back to the callee's default)")
                 ctx.decide(rule, ok, sc, c, construct=f"vjp-wrapper:{src(call)[:60]}",
                            detail=f"differentiation variable replaces `{P.id if isinstance(P, ast.Name) else '?'}` (argument {zi})",
                            bad_detail=f"vjp primal is `{src(P)}` but the lambda variable stands for `{missing}` in `{src(call)}`")
@@ -605,6 +625,12 @@ def variants(repo):
                 "D3/T5-parameter-slots"),
         Variant("vjp wrapper wrong primal", MIp,
                 sub("vjp(lambda z: grad(energyFunction, 0)(u, q, z, x), iv)", "vjp(lambda z: grad(energyFunction, 0)(u, q, iv, z), iv)"),
+                "D3/T5-parameter-slots"),
+        Variant("closure captures self.p", O,
+                sub("vjp(lambda q1: self.grad_x(x, param_index_update(p,1,q1)), p[1])", "vjp(lambda q1: self.grad_x(x, param_index_update(self.p,1,q1)), p[1])"),
+                "D3/T5-parameter-slots"),
+        Variant("wrapper drops dt", MIp,
+                sub("vjp(lambda z: compute_ivs_update(z, ivs, dt), x)", "vjp(lambda z: compute_ivs_update(z, ivs), x)"),
                 "D3/T5-parameter-slots"),
         Variant("negated adjoint rhs", N,
                 sub_in_func("nonlinear_solve_with_state_b", "                                                             v,\n",
